@@ -4,6 +4,7 @@ import (
 	"crypto/sha256"
 	"encoding/json"
 	"fmt"
+	"os"
 	"strings"
 	"time"
 
@@ -130,6 +131,9 @@ func runSignTape(fx *world.Fixture, p tPlan, root string, stepCheck bool) *tObs 
 		}
 		md := models[j]
 		lines := w.Nodes[j].Log.Since(logBefore)
+		if os.Getenv("VERIF_DEBUG") != "" {
+			fmt.Printf("DEBUG node %d board[%d] %s from %s batch %s:\n  %s\n", j, k, m.Event, m.SenderAddr, batchIDOf(m.Data), strings.Join(lines, "\n  "))
+		}
 		collected := 0
 		for _, l := range lines {
 			if strings.Contains(l, "Collected enough partial signatures") {
